@@ -298,6 +298,46 @@ where
     format!("ok {} {} rt {}", rend(v), tok_bytes(j.as_bytes()), rt)
 }
 
+/// does a JSON text repeat a member name inside some object?  (serde_json::Value silently keeps
+/// the last of repeated members, typed decoding rejects a repeated known member: the two entry
+/// points are only comparable on repetition-free documents)
+struct DupCheck(bool);
+impl<'de> serde::Deserialize<'de> for DupCheck {
+    fn deserialize<D: serde::Deserializer<'de>>(d: D) -> Result<Self, D::Error> {
+        struct V;
+        impl<'de> serde::de::Visitor<'de> for V {
+            type Value = DupCheck;
+            fn expecting(&self, f: &mut std::fmt::Formatter) -> std::fmt::Result {
+                f.write_str("any JSON value")
+            }
+            fn visit_bool<E>(self, _: bool) -> Result<DupCheck, E> { Ok(DupCheck(false)) }
+            fn visit_i64<E>(self, _: i64) -> Result<DupCheck, E> { Ok(DupCheck(false)) }
+            fn visit_u64<E>(self, _: u64) -> Result<DupCheck, E> { Ok(DupCheck(false)) }
+            fn visit_f64<E>(self, _: f64) -> Result<DupCheck, E> { Ok(DupCheck(false)) }
+            fn visit_str<E>(self, _: &str) -> Result<DupCheck, E> { Ok(DupCheck(false)) }
+            fn visit_unit<E>(self) -> Result<DupCheck, E> { Ok(DupCheck(false)) }
+            fn visit_seq<A: serde::de::SeqAccess<'de>>(self, mut a: A) -> Result<DupCheck, A::Error> {
+                let mut dup = false;
+                while let Some(DupCheck(d)) = a.next_element()? {
+                    dup |= d;
+                }
+                Ok(DupCheck(dup))
+            }
+            fn visit_map<A: serde::de::MapAccess<'de>>(self, mut a: A) -> Result<DupCheck, A::Error> {
+                let mut dup = false;
+                let mut seen = std::collections::HashSet::new();
+                while let Some(k) = a.next_key::<String>()? {
+                    dup |= !seen.insert(k);
+                    let DupCheck(d) = a.next_value()?;
+                    dup |= d;
+                }
+                Ok(DupCheck(dup))
+            }
+        }
+        d.deserialize_any(V)
+    }
+}
+
 /// `DECODE family ef text urltab`
 pub fn decode(ws: &[&str]) -> String {
     if ws.len() != 4 {
@@ -309,12 +349,32 @@ pub fn decode(ws: &[&str]) -> String {
         None => return BAD.into(),
     };
     macro_rules! de {
-        ($t:ty, $r:expr) => {
-            match serde_json::from_slice::<$t>(&text) {
+        ($t:ty, $r:expr) => {{
+            let main = match serde_json::from_slice::<$t>(&text) {
                 Ok(v) => built_rt(&v, $r),
                 Err(_) => "err".to_string(),
+            };
+            // the other entry points of the same decoder must agree with the slice reader: a reader
+            // (never lends borrowed strings) on every document, an owned serde_json::Value (hands
+            // out owned strings, visit_string) on repetition-free documents
+            let rd = match serde_json::from_reader::<_, $t>(&text[..]) {
+                Ok(v) => built_rt(&v, $r),
+                Err(_) => "err".to_string(),
+            };
+            if rd != main {
+                return format!("paths-differ reader={}", tok_bytes(rd.as_bytes()));
             }
-        };
+            if let (Ok(DupCheck(false)), Ok(val)) = (serde_json::from_slice::<DupCheck>(&text), serde_json::from_slice::<serde_json::Value>(&text)) {
+                let via = match serde_json::from_value::<$t>(val) {
+                    Ok(v) => built_rt(&v, $r),
+                    Err(_) => "err".to_string(),
+                };
+                if via != main {
+                    return format!("paths-differ value={}", tok_bytes(via.as_bytes()));
+                }
+            }
+            main
+        }};
     }
     match (ws[0], ext) {
         ("token", false) => de!(BasicTokenResponse, render_token),
